@@ -220,12 +220,26 @@ Qed.
 (* ---- through the session functions the correspondence check runs ---- *)
 Require Import Calc.Resolve Calc.GenBuiltins Calc.Session.
 
+Definition resolve_list_of := fix go (l : list node) : RM (list node) :=
+  match l with
+  | [] => rret []
+  | x :: r => x' <- resolve x ;; r' <- go r ;; rret (x' :: r')
+  end.
+
+Lemma resolve_nlist l : resolve (NList l) = (l' <- resolve_list_of l ;; rret (NList l')).
+Proof. reflexivity. Qed.
+
 Lemma resolve_pure : forall e, pure e = true -> resolve e [] = Some (e, []).
 Proof.
-  induction e; intros Hp; try discriminate Hp; try reflexivity; cbn [pure] in Hp.
-  - destruct (binop_opcode op); [|discriminate]. apply andb_prop in Hp. destruct Hp as [H1 H2].
-    cbn [resolve]. unfold rbind. rewrite (IHe1 H1), (IHe2 H2). reflexivity.
-  - apply andb_prop in Hp. destruct Hp as [_ H1]. cbn [resolve]. unfold rbind. rewrite (IHe H1). reflexivity.
+  apply (pure_induction (fun e => resolve e [] = Some (e, []))); try reflexivity.
+  - intros op c l r _ _ _ H1 H2. cbn [resolve]. unfold rbind. rewrite H1, H2. reflexivity.
+  - intros op t _ _ H1. cbn [resolve]. unfold rbind. rewrite H1. reflexivity.
+  - intros l _ HF. rewrite resolve_nlist. unfold rbind.
+    assert (E : resolve_list_of l [] = Some (l, [])).
+    { induction HF as [|x r Hx Hr IH]; [reflexivity|]. cbn [resolve_list_of]. unfold rbind. rewrite Hx, IH. reflexivity. }
+    rewrite E. reflexivity.
+  - intros a i _ _ H1 H2. cbn [resolve]. unfold rbind. rewrite H1, H2. reflexivity.
+  - intros a f t _ _ _ H1 H2 H3. cbn [resolve]. unfold rbind. rewrite H1, H2, H3. reflexivity.
 Qed.
 
 Definition machine_idle (mc : machine) (c : ctx) (m : mem) : Prop :=
